@@ -131,16 +131,16 @@ for _a, _s in ALGOS:
     _mk(_a, _s)
 
 
-TEXTS = ("", "hello", "päss", "x" * 70)
+TEXTS = ("", "hello", "päss", "x" * 70, "pass:word", ":", "abcd:", "o\ufb03ce", "a\u0308b", "\uff21dmin")
 
 
 @obligation(prop="C09", sites=("plain", "default"), encodes=ENC, budget={"quick": 120, "thorough": 300},
-            what="real hashlib/base64/urandom on secrets from a menu (empty, ascii, non-ascii, long) for all six "
+            what="real hashlib/base64/urandom on secrets from a menu (empty, ascii, non-ascii, long, containing colons / looking like salt:digest, not NFKC-normalised) for all six "
                  "algorithms: a plaintext leaf is hashed on load, the plaintext is absent from every serialised "
                  "leaf, defaults given as plaintext or as DigestValue behave alike, digest == hashlib(salt+p)")
 def challenge_concrete(ai: int, ti: int, default_kind: int) -> bool:
     """
-    pre: 0 <= ai < 6 and 0 <= ti < 4 and 0 <= default_kind <= 2
+    pre: 0 <= ai < 6 and 0 <= ti < 10 and 0 <= default_kind <= 2
     post: _
     """
     import base64
@@ -150,9 +150,22 @@ def challenge_concrete(ai: int, ti: int, default_kind: int) -> bool:
         if ai == i:
             algo, size = ALGOS[i]
     text = TEXTS[0]
-    for i in range(4):
+    for i in range(10):
         if ti == i:
             text = TEXTS[i]
+    from vf.hlib.stubs import untraced
+    dk = 0
+    for i in range(3):
+        if default_kind == i:
+            dk = i
+    default_kind = dk
+    with untraced():   # everything below is concrete (menu values, real hashlib / base64 / urandom)
+        return _concrete(algo, size, text, default_kind)
+
+
+def _concrete(algo: str, size: int, text: str, default_kind: int) -> bool:
+    import base64
+    import hashlib
     schema = Schema()
     if default_kind == 0:
         schema.pw = ChallengeField(algo)
